@@ -5,6 +5,7 @@ CONSTANTS
   Huge = 7
   Gran = 2
   Slack = 0
+  DirectMap = 1000
   EnvK = 1
   EnvC = 0
   Ids = {1, 2}
